@@ -33,12 +33,13 @@
    Proofs/RefsValidKey.v (the walk the handler chooses collects exactly the occurrences with the key),
    Proofs/RefsValidModel.v (the handlers on a token vector in text order), Proofs/RefsValid.v (grammar:
    where the occurrences sit, distinct declarations have distinct tokens; assembly).
-   STATED, NOT PROVED, NOT REFUTED: C13_full_statement in its formulation over [clean_doc] - on top of
-   C13_valid it needs the completeness of the front end (no diagnostic => the text is a layout of a
-   well-typed abstract program), which is not proved.  Before b909979 it was refuted on the model by the
+   PROVED (C13_full, at the end of this file): C13_full_statement in its formulation over [clean_doc] - on top of
+   C13_valid it is the completeness of the front end (Proofs/CompleteFront.v front_end_complete: no diagnostic
+   => the text is a layout of a well-typed abstract program; parser part Proofs/CompleteBase/Expr/Stmt/Prog.v,
+   build/analyze part Proofs/CompleteSem.v).  Before b909979 it was refuted on the model by the
    witnesses of the findings C13-local-named-like-its-procedure, C13-type-use-shadowed-by-local,
    C13-rename-predefined-procedure and C13-local-named-int; on these four witnesses it HOLDS now
-   (C13_repaired_witnesses_agree) and no counterexample is known.
+   (C13_repaired_witnesses_agree).
    STATED ONLY: C13_roundtrip_statement (apply the edits, same diagnostics, same bindings, rename
    back).  It is validated by the check (correspondence, derivation-based oracle, the judge deciding
    the instances of C13_full_statement on generated programs - command 37 -, round-trip oracle with an
@@ -404,3 +405,11 @@ Example C13_roundtrip_instance :
   | _ => False
   end.
 Proof. vm_compute. repeat split. Qed.
+
+(* the full functional statement (first half of the property) for every document without diagnostics: by the
+   completeness of the front end (Proofs/CompleteFront.v, front_end_complete) such a document is the document
+   of a layout of a well-typed abstract program, so C13_valid (refs_valid) applies *)
+From Spl Require Proofs.CompleteFront.
+Theorem C13_full : C13_full_statement.
+Proof. exact CompleteFront.full_statement_refs_holds. Qed.
+Print Assumptions C13_full.
